@@ -261,7 +261,7 @@ theorem lit_parseExpr (l : Lit) (hp : l.printable esc = true) (pre : List PTok)
     obtain ⟨b2, e2, q2, rfl, h2⟩ := toksOf_eq_cons h1
     obtain ⟨b3, e3, q3, rfl, h3⟩ := toksOf_eq_cons h2
     have := toksOf_eq_nil h3; subst this
-    exact ⟨1, b1, e3, fun F => rfl⟩
+    exact ⟨1, 0, 0, fun F => rfl⟩
   | tag k v =>
     simp only [Lit.printable, Bool.and_eq_true] at hp
     simp only [Lit.toks] at hpre
